@@ -286,8 +286,15 @@ func handleUpload(ucfg *tconfig.Config, uploadBucket storage.BucketHandle) conte
 		if r.Method == "POST" {
 			ctx := r.Context()
 			var report telemetry.Report
-			if err := json.NewDecoder(r.Body).Decode(&report); err != nil {
+			dec := json.NewDecoder(r.Body)
+			if err := dec.Decode(&report); err != nil {
 				return content.Error(fmt.Errorf("invalid JSON payload: %v", err), http.StatusBadRequest)
+			}
+			// The decoder stops reading after the first JSON value. Read the
+			// rest of the body so that the request size limit applies to all
+			// of it, not just to the report.
+			if _, err := io.Copy(io.Discard, io.MultiReader(dec.Buffered(), r.Body)); err != nil {
+				return content.Error(fmt.Errorf("invalid payload: %v", err), http.StatusRequestEntityTooLarge)
 			}
 			if err := validate(&report, ucfg); err != nil {
 				return content.Error(fmt.Errorf("invalid report: %v", err), http.StatusBadRequest)
